@@ -5,14 +5,14 @@ import random
 
 from . import core, lexicon
 
-CFG = ("SPECIFICATION Spec\nCONSTANTS MaxAtoms = %d MaxStack = %d Flex = %s Small = %s\n%s"
+CFG = ("SPECIFICATION Spec\nCONSTANTS MaxAtoms = %d MaxStack = %d Flex = %s Small = %s LocalMax = %d\n%s"
        "INVARIANTS TypeOK StackDiscipline\nPROPERTIES Progress TriviaTransparent Consistent\nCHECK_DEADLOCK FALSE\n")
 
 
-def behaviours(check, flex, small, maxatoms=8, maxstack=2, cover=True, timeout=1500):
-    cfg = CFG % (maxatoms, maxstack, "TRUE" if flex else "FALSE", "TRUE" if small else "FALSE", "VIEW view\n" if cover else "")
+def behaviours(check, flex, small, maxatoms=8, maxstack=2, cover=True, timeout=1500, localmax=0):
+    cfg = CFG % (maxatoms, maxstack, "TRUE" if flex else "FALSE", "TRUE" if small else "FALSE", localmax, "VIEW view\n" if cover else "")
     r = core.tlc("Lexer", cfg, timeout=timeout, heap="8g", workers=1 if cover else None)
-    check.add_tlc("Lexer(flex=%s,small=%s,maxatoms=%d,maxstack=%d,%s)" % (flex, small, maxatoms, maxstack, "transition-cover" if cover else "all-paths"), r)
+    check.add_tlc("Lexer(flex=%s,small=%s,maxatoms=%d,maxstack=%d,%s)" % (flex, small, maxatoms, maxstack, ("transition-cover" if cover else "all-paths") + (", local paths <= %d" % localmax if localmax else "")), r)
     out = [o for o in r.out if isinstance(o, dict) and "path" in o]
     out.sort(key=lambda o: json.dumps(o["path"]))      # TLC's worker threads print in any order
     return out
@@ -32,6 +32,24 @@ def cases(check, tier, rng, flex_values=(True, False)):
                 src, exp, nerr = c
                 out.append({"path": b["path"], "src": src, "exp": exp, "nerr": nerr, "exact": b["exact"],
                             "mode": b["mode"], "stack": b["stack"], "flex": flex})
+    # every sequence of three atoms inside the index of "$a[...]" (Lexer.tla with LocalMax = 2: the index sub-mode's states are
+    # split by the atoms consumed there), left open and closed
+    loc = [b for b in behaviours(check, True, True, localmax=2 if tier == "quick" else 3)
+           if sum(1 for a in b["path"] if a.startswith("IDX")) >= 2]
+    nloc = 0
+    for b in loc:
+        c = lexicon.concretise(b, rng)
+        if c is None:
+            dropped += 1
+            continue
+        src, exp, nerr = c
+        nloc += 1
+        out.append({"path": b["path"], "src": src, "exp": exp, "nerr": nerr, "exact": False, "mode": b["mode"], "stack": b["stack"], "flex": True})
+        if b["mode"] == "string_var_index":
+            closer = {"BACKTICK": b"`", "DQUOTE": b'"'}.get(next((a for a in b["path"] if a in ("BACKTICK", "DQUOTE")), None), b"\nA\n")
+            out.append({"path": b["path"] + ["IDX_RBRACKET", "..."], "src": src + b"]" + closer + b";", "exp": exp, "nerr": nerr, "exact": False,
+                        "mode": "php", "stack": [], "flex": True})
+    check.cov["lexer_index_paths"] = nloc
     check.cov["lexer_behaviours_dropped_by_fuses_filter"] = dropped
     return out
 
